@@ -92,7 +92,11 @@ def correspond(ctx):
     dist = {'recorded': len(cases), 'potable': len(pcases), 'n_elements': {k: sum(1 for c in cases if len(c['elements']) == k) for k in (1, 2, 3, 4)},
             'pairs_declared_reversed': sum(1 for c in cases for (a, b) in c['pairs'] if a > b), 'undeclared_pairs': sum(len(c['elements']) * (len(c['elements']) + 1) // 2 - len(c['pairs']) for c in cases),
             'nr_min': min(c['nr'] for c in allc), 'nrho_min': min(c['nrho'] for c in allc), 'builder_models': nb}
-    return {'evaluations': len(allc) + nb, 'cases': allc, 'nontrivial': core.distinct_count([c for c in cases if len(c['elements']) >= 2]) + core.distinct_count(pcases),
+    # how the numbers are printed (coq/model/NumFormat.v): the cells rendered in this run, edge values and random doubles
+    import fmt_common
+    nfmt, fdis, fdist = fmt_common.check_formats('C03', ctx['rng'], [8, 9, 10], ctx['thorough'])
+    dis = fdis + dis
+    return {'number_format_cells': nfmt, 'number_format': fdist, 'evaluations': nfmt + len(allc) + nb, 'cases': allc, 'nontrivial': core.distinct_count([c for c in cases if len(c['elements']) >= 2]) + core.distinct_count(pcases),
             'rule': 'EAM models with 1..4 elements in shuffled declaration order, random subsets of pair potentials declared in either species order, nr/nrho from 2, recording callables through writeSetFL '
                     '(explicit steps, comments, header cutoff) and SetFL_EAMTabulation; potable models (setfl, lammps_eam_alloy) with [Species] overrides: builder output vs model/EamBuilder.v and file vs layout model; '
                     'whole file text compared; non-trivial = two or more elements, or a potable model; distinct by canonical JSON',
